@@ -23,6 +23,7 @@ import (
 	blnpolicy "github.com/containers/nri-plugins/cmd/plugins/balloons/policy"
 	tapolicy "github.com/containers/nri-plugins/cmd/plugins/topology-aware/policy"
 	"github.com/containers/nri-plugins/pkg/agent"
+	logger "github.com/containers/nri-plugins/pkg/log"
 	cfgapi "github.com/containers/nri-plugins/pkg/apis/config/v1alpha1"
 	"github.com/containers/nri-plugins/pkg/resmgr/cache"
 	cpucontrol "github.com/containers/nri-plugins/pkg/resmgr/control/cpu"
@@ -47,6 +48,7 @@ type fsRes struct {
 	Quota    *int64  `json:"quota"`
 	Period   *uint64 `json:"period"`
 	MemLimit *int64  `json:"memlimit"`
+	Swap     *int64  `json:"swap"`
 	Cpus     string  `json:"cpus"`
 	Mems     string  `json:"mems"`
 	NoCPU    bool    `json:"nocpu"`
@@ -94,6 +96,7 @@ type fsUpdate struct {
 	Quota   *int64  `json:"quota"`
 	Period  *uint64 `json:"period"`
 	MemLim  *int64  `json:"memlimit"`
+	Swap    *int64  `json:"swap"`
 	Mounts  int     `json:"mounts"`
 	HasLin  bool    `json:"haslinux"`
 }
@@ -153,6 +156,7 @@ type fsOut struct {
 	Zones  []fsZone      `json:"zones"`
 	Saved  int           `json:"saved"`
 	Disk   []fsDiskCtr   `json:"disk"`
+	RevertFailed bool    `json:"revert_failed,omitempty"`
 	Classes map[string][]int `json:"cpuclasses,omitempty"`
 	Calls  [][]string    `json:"calls"`
 }
@@ -198,6 +202,18 @@ func readDisk(raw []byte) []fsDiskCtr {
 	}
 	sort.Slice(out, func(i, j int) bool { return out[i].ID < out[j].ID })
 	return out
+}
+
+// the resource manager reports a failed revert of a rejected configuration only in its log
+type verifLog struct{ logger.Logger }
+
+var verifRevertFailed bool
+
+func (l verifLog) Warnf(format string, args ...interface{}) {
+	if strings.HasPrefix(format, "failed to revert configuration") {
+		verifRevertFailed = true
+	}
+	l.Logger.Warnf(format, args...)
 }
 
 type fakeStub struct {
@@ -261,6 +277,9 @@ func mkRes(r *fsRes) *api.LinuxResources {
 		res.Memory = &api.LinuxMemory{}
 		if r.MemLimit != nil {
 			res.Memory.Limit = api.Int64(*r.MemLimit)
+		}
+		if r.Swap != nil {
+			res.Memory.Swap = api.Int64(*r.Swap)
 		}
 	}
 	return res
@@ -352,6 +371,10 @@ func convUpdate(id string, r *api.LinuxResources, mounts int, hasLinux bool) *fs
 	if m := r.Memory; m != nil && m.Limit != nil {
 		v := m.Limit.Value
 		u.MemLim = &v
+	}
+	if m := r.Memory; m != nil && m.Swap != nil {
+		v := m.Swap.Value
+		u.Swap = &v
 	}
 	return u
 }
@@ -603,7 +626,12 @@ func (inst *fsInstance) exec(ev *fsEvent, out *fsOut) {
 		}
 		cfg, err = parseConfig(inst.policy, ev.Config)
 		if err == nil {
+			if _, wrapped := log.(verifLog); !wrapped {
+				log = verifLog{log}
+			}
+			verifRevertFailed = false
 			err = inst.m.reconfigure(cfg)
+			out.RevertFailed = verifRevertFailed
 			if err == nil {
 				inst.cfgRaw = ev.Config
 			}
